@@ -3,7 +3,7 @@
 id=$1; suf=$2; wt=${MUT_WT:-/tmp/mut_$id$suf}; out=/verif/seeded/$id$suf
 [ -f $wt/_mutant/patch.diff ] || { echo "$id: no patch"; exit 1; }
 mkdir -p $out
-git -C $wt diff > $out/patch.diff      # authoritative diff of the worktree (source only; _mutant/ is untracked)
+git -C $wt diff -- . ":(exclude)*.c" > $out/patch.diff      # authoritative diff of the worktree (source only; generated C and _mutant/ left out)
 cp $wt/_mutant/demo.py $out/demo.py; cp $wt/_mutant/notes.md $out/notes.md 2>/dev/null
 applies=no; git -C /repo apply --check $out/patch.diff 2>/dev/null && applies=yes
 # rebuild .so in the worktree when a .pyx is touched
